@@ -263,7 +263,7 @@ let do_emit rest =
     let ni n = string_of_int (int_of_nat n) in
     let ts = function
       | TSt -> "s" | TLbl n -> "L" ^ ni n | TJmp n -> "J" ^ ni n | TCJmp n -> "C" ^ ni n
-      | TSave n -> "S" ^ ni n | TRestore n -> "R" ^ ni n | TSaveP n -> "P" ^ ni n | TUseP n -> "U" ^ ni n
+      | TSave n -> "S" ^ ni n | TRestore n -> "R" ^ ni n | TSaveP n -> "P" ^ ni n | TUseP n -> "U" ^ ni n | TMemo n -> "M" ^ ni n
       | TBrk -> "b" | TOpen -> "{" | TClose -> "}" | TSw -> "sw" | TCase -> "case" | TDflt -> "dflt" | TEndSw -> "end" in
     let slots = x_emit_all g (ast = "1") (inl = "1") undef in
     print_endline (Printf.sprintf "emit %s/%s%s :: %s" gid ast inl
